@@ -213,6 +213,7 @@ pub fn build(prop: &str, seed: u64, hist: u64, rng: &mut Rng, ids: &[String]) ->
         fault_cfg,
         host_eager: true,
         host_feed,
+        byz: None,
     }
 }
 
